@@ -597,9 +597,10 @@ func runC02Case(c cfg, seed uint64, npeers int, keys map[string]struct{}) (evals
 			p.gc = cs.c
 			// reader
 			rdone := make(chan struct{})
+			rr := pr.Fork() // forked here: the PRNG is not to be touched from two goroutines
 			go func() {
 				defer close(rdone)
-				p.readAll(pr.Fork(), func() *c02Conn { return d })
+				p.readAll(rr, func() *c02Conn { return d })
 			}()
 			// asynchronous producers
 			nprod := pr.Pick(0, 1, 2, 2)
